@@ -494,7 +494,7 @@ def plan (e : Env) (enc : Bytes → Bytes) : Op → Plan
     if hasMeta then withPath (metadataPath e enc b k (some uuid)) t1 fun m => .ok (t1 ++ [cr m, wr m])
     else .ok t1
   | .uploadPart _ _ uploadId part hasBody counter =>
-    if part > 10000 then .fail [] .invalidArgument
+    if part < 1 ∨ part > 10000 then .fail [] .invalidArgument
     else if !hasBody then .fail [] .incompleteBody
     else match parseUuid uploadId with
       | none => .fail [] .noSuchUpload           -- 38336b0: an id that is no UUID names no upload
@@ -503,6 +503,7 @@ def plan (e : Env) (enc : Bytes → Bytes) : Op → Plan
         withPath (uploadPartPath e u part) t1 fun pp =>
         withPath (tmpPath e counter) t1 fun tmp => .ok (t1 ++ fileWrite tmp pp (parentPath pp))
   | .uploadPartCopy ap sb sk _ _ uploadId part counter =>
+    if part < 1 ∨ part > 10000 then .fail [] .invalidArgument else
     match parseUuid uploadId with
     | none => .fail [] .noSuchUpload
     | some u =>
